@@ -38,7 +38,14 @@ def parsePipe (j : Json) : E Pipe := do
     let items ← (arrD f "items").mapM fun it => do
       pure ({ name := ← bytes it "name", probes := ← (arrD it "probes").mapM parseProbe } : Item)
     pure ({ kind, cond, items } : Fin)
-  pure { authz, fins }
+  pure { authz, fins, authn := !(boolD j "deny" false), comm := boolD j "comm" false }
+
+def parseRespond (j : Json) : Respond :=
+  let codes := fldD j "codes" (Json.mkObj [])
+  { accepted := natD codes "accepted" 0, argument := natD codes "argument" 0,
+    authentication := natD codes "authentication" 0, authorization := natD codes "authorization" 0,
+    communication := natD codes "communication" 0, internal := natD codes "internal" 0,
+    norule := natD codes "norule" 0 }
 
 def parseReq (j : Json) : E LReq := do
   let headers ← (arrD j "headers").mapM fun h => do
@@ -66,7 +73,7 @@ def parseDecoder (c : Json) (body : Option Bytes) : Decoder := fun k b =>
 
 def decStr : Dec → String
   | .ok => "ok" | .norule => "norule" | .argument => "argument" | .authorization => "authorization"
-  | .internal => "internal"
+  | .internal => "internal" | .authentication => "authentication" | .communication => "communication"
 
 def jpairs (l : List (Bytes × Bytes)) : Json :=
   jarr ((sortPairs (l.map fun kv => (String.ofList kv.1, String.ofList kv.2))).map fun kv => jstrs [kv.1, kv.2])
@@ -89,9 +96,12 @@ def seenJson (spyH spyC : List Bytes) (F : Funcs) (hm : List (Bytes × Bytes)) (
 def outcomeJson (spyH spyC : List Bytes) (F : Funcs) (hm : List (Bytes × Bytes)) (o : Outcome) : Json :=
   Json.mkObj [
     ("dec", jstr (decStr o.dec)),
+    ("status", jnat o.status),
     ("spy", match o.seen with | some s => seenJson spyH spyC F hm s | none => Json.null),
     ("up", if o.dec = .ok then
-        Json.mkObj [("headers", jpairs o.upHeaders), ("cookies", jpairs o.upCookies)] else Json.null)]
+        -- what the upstream application is shown, for the reserved header namespace of the tie
+        Json.mkObj [("headers", jpairs (dedup (o.upSees.filter fun kv => b!"X-C13-".isPrefixOf kv.1))),
+                    ("cookies", jpairs o.upCookies)] else Json.null)]
 
 def epName : EP → String
   | .decision => "decision" | .proxy => "proxy" | .envoy => "envoy"
@@ -121,8 +131,9 @@ def run (c : Json) : E Json := do
     | some r' => repo := r'
   if rejected then return Json.mkObj [("res", Json.mkObj [("load", jstr "rejected")])]
   let hasDefault := !(isNull c "default")
-  let defaultPipe ← if hasDefault then parsePipe (fldD (← fld c "default") "pipe" (Json.mkObj [])) else pure ⟨[], []⟩
-  let cfg : Cfg := { repo, hasDefault, pipes, defaultPipe, D := parseDecoder c lr.body }
+  let defaultPipe ← if hasDefault then parsePipe (fldD (← fld c "default") "pipe" (Json.mkObj [])) else pure { authz := [], fins := [] }
+  let cfg : Cfg := { repo, hasDefault, pipes, defaultPipe, D := parseDecoder c lr.body,
+                     respond := parseRespond (fldD c "respond" (Json.mkObj [])) }
   -- the three entry points
   let mut res : List (String × Json) := []
   let mut stats : List (String × Json) := []
@@ -130,7 +141,7 @@ def run (c : Json) : E Json := do
     match mkCtx I cfg.D pack ep lr with
     | none => res := res ++ [(epName ep, Json.mkObj [("dec", jstr "badrequest")])]
     | some e =>
-      let o := finalize ep (execute cfg e.funcs e.ctx)
+      let o := finalize cfg.respond e.client ep (execute cfg e.funcs e.ctx)
       res := res ++ [(epName ep, outcomeJson spyH spyC e.funcs e.headersMap o)]
       stats := stats ++ [(epName ep, jstr (decStr o.dec))]
   let ck := toCheck pack lr
@@ -143,9 +154,9 @@ def run (c : Json) : E Json := do
   let specJson := Json.mkObj [
     ("wellformed", Json.bool (Spec.wellFormed lr)),
     ("single_valued", Json.bool (Spec.singleValued sp)),
-    ("decision", outcomeJson spyH spyC F (Spec.headersMap lr) (Spec.answer .decision sp)),
-    ("envoy", outcomeJson spyH spyC F (Spec.headersMap lr) (Spec.answer .envoy sp)),
-    ("proxy", outcomeJson spyH spyC F (Spec.headersMap lr) (Spec.answer .proxy sp))]
+    ("decision", outcomeJson spyH spyC F (Spec.headersMap lr) (Spec.answer cfg.respond lr .decision sp)),
+    ("envoy", outcomeJson spyH spyC F (Spec.headersMap lr) (Spec.answer cfg.respond lr .envoy sp)),
+    ("proxy", outcomeJson spyH spyC F (Spec.headersMap lr) (Spec.answer cfg.respond lr .proxy sp))]
   return Json.mkObj [("res", Json.mkObj res), ("spec", specJson), ("stats", Json.mkObj stats)]
 
 end Driver.EntryView
